@@ -10,6 +10,8 @@ import Pyxv.Model.OpsEntities
 import Pyxv.Model.OpsSettings
 import Pyxv.Model.OpsRefs
 import Pyxv.Model.OpsWarnings
+import Pyxv.Model.OpsLexer
+import Pyxv.Model.OpsDefaults
 /-!
 Driver: one JSON request per line on stdin, one JSON reply per line on stdout.
 `{"op": "<name>", …}` → `{"ok": true, "v": …}` | `{"ok": false, "err": "…"}`.
@@ -17,7 +19,7 @@ Driver: one JSON request per line on stdin, one JSON reply per line on stdout.
 open Lean Pyxv
 
 def handlers : List (String → Json → Option (Except String Json)) :=
-  [Xml.opsXml, Form.opsForm, Validator.opsValidator, Chan.opsChannel, Texts.opsTexts, Process.opsProcess, Binds.opsBinds, Choices.opsChoices, Entities.opsEntities, Settings.opsSettings, Refs.opsRefs, Warn.opsWarn]
+  [Xml.opsXml, Form.opsForm, Validator.opsValidator, Chan.opsChannel, Texts.opsTexts, Process.opsProcess, Binds.opsBinds, Choices.opsChoices, Entities.opsEntities, Settings.opsSettings, Refs.opsRefs, Warn.opsWarn, Lexer.opsLexer, Defaults.opsDefaults]
 
 def dispatch (op : String) (j : Json) : Except String Json :=
   let rec go : List (String → Json → Option (Except String Json)) → Except String Json
